@@ -8,6 +8,10 @@
                      (the order of this test relative to the activity / count tie-breakers is irrelevant and not checked)
   first-candidate    for each requirement the proposal is the first unassigned candidate in cached order (shared with C07)
   root-true-decisions the only constant-true decisions are the run's solvable and decide()'s proposal (shared with C05)
+
+Added after the second and third seeding rounds:
+  requirement-skipped-only-by-trail-or-flag  every test between the start of an iteration over requires_clauses and the walk over
+                     that solvable's requirements reads only the trail, the explicit flag and the best proposal
 """
 from common import *
 import q, enc, c05, c07
